@@ -887,13 +887,18 @@ def check_C20(tier, nproc=None):
     Ls = (0, 7, 100, 5000, 200000) if tier == 'quick' else (0, 1, 7, 64, 100, 1000, 4096, 5000, 65536, 200000, 1000000)
     for L in Ls:
         c.add(Job('vH_C20_growstep', [('int', L)], label='vH_C20_growstep(L=%d)' % L, weight=10 + L // 1000, opts=o))
-    c.bounds = {'growth_step_levels': list(Ls), 'shapes': len(shapes), 'hints': 'six size hints (reader and one pooled child) free in [0, 2^20]', 'constants': 'A = 1536 bytes per added input byte, B = 4096',
+    # the same for the nesting stack of the handler machines (they have no depth limit): thorough only, the input
+    # has to be nested as deep as the stack is long
+    SL = () if tier == 'quick' else (100, 5000, 40000)
+    for L in SL:
+        c.add(Job('vH_C20_stackstep', [('cbytes', b'[' * (L + 2)), ('int', L)], label='vH_C20_stackstep(L=%d)' % L, weight=50 + L // 10, opts=o))
+    c.bounds = {'stack_growth_step_levels': list(SL), 'growth_step_levels': list(Ls), 'shapes': len(shapes), 'hints': 'six size hints (reader and one pooled child) free in [0, 2^20]', 'constants': 'A = 1536 bytes per added input byte, B = 4096',
                 'cost_model': 'make([]T, n): n*sizeof(T); make(map, n): 48n+48; append beyond capacity: 2*needed*sizeof(T); []byte->string: len; new(T): sizeof(T)'}
     c.must_reach = ['C20.marginal', 'C20.growstep']
     _std(c, ['allocation sizes follow the cost model above (runtime size classes and map bucket layout are not modelled)',
              'any non-negative size hints are reachable (decode a container of that size first); the native replay sets the fields directly',
              'marginal cost of one more member / nesting level / escape bounded by A*added bytes + B is a sufficient condition for linear total cost on these shape families'])
-    c.outside = ['document shapes outside the listed families', 'amortised growth of the nesting stack (append doubling; a growth step of the stack needs an input nested as deep as the stack is long)', 'growth steps at fill levels other than the listed ones', 'GC behaviour, allocator size classes']
+    c.outside = ['document shapes outside the listed families', 'amortised growth of the nesting stack beyond the listed fill levels (quick tier: not at all; a growth step of the stack needs an input nested as deep as the stack is long)', 'growth steps at fill levels other than the listed ones', 'GC behaviour, allocator size classes']
     c.run_jobs(nproc)
     c.confirm()
     return c.finish()
